@@ -12,6 +12,7 @@ outside the blocks the text is unchanged, every block became `:hex` and the hex 
 order; no constructor keyword stays in the user metadata."""
 import re, pickle, inspect
 import yaml as pyyaml
+import random as _random
 from props.mergefam import *
 from awesomeyaml import yaml as ay_yaml
 
@@ -387,6 +388,14 @@ class C01(MergeFamProp):
 
     def gen_cases(self, rng, n, tier):
         cases = super().gen_cases(rng, n, tier)
+        r2 = _random.Random(rng.random())
+        for c in cases:
+            # a document handed over as Config.build(src) does (file or YAML text is guessed) whose LAST node is a block scalar keeping
+            # its final line break: what the builder does to the text before parsing shows there (seeded change S5-C01)
+            d0 = c['docs'][0]
+            if d0.get('auto') and 'm' in d0['raw'] and not d0.get('shared') and r2.random() < 0.15:
+                d0['raw'] = dict(d0['raw'], m=list(d0['raw']['m']) + [['zz', S(r2.choice(['tail\n', 'two\nlines\n', 'x\n']))]])
+                c['style'] = ['blocklit', 0, 0]
         return cases + [gen_meta_case(rng) for _ in range(max(1, n // 2))]      # drawn after the others: those stay as they were
 
     def impl(self, case):
